@@ -393,7 +393,10 @@ pub fn generate(prop: &str, seed: u64) -> W3Scn {
     let mut trading = trading0;
     for _ in 0..n_steps {
         if g.r.chance(p.toggle) {
-            trading = !trading;
+            // (a fifth of the requests are redundant: the switch is a flag, not a counter)
+            if g.r.chance(0.8) {
+                trading = !trading;
+            }
             g.ops.push(EnvOp::Trading { on: trading });
             for m in g.ms.iter_mut() {
                 if trading {
@@ -427,7 +430,9 @@ pub fn generate(prop: &str, seed: u64) -> W3Scn {
         }
         // submissions may be interleaved with a toggle (flag applies to the whole step)
         if g.r.chance(p.toggle * 0.5) {
-            trading = !trading;
+            if g.r.chance(0.8) {
+                trading = !trading;
+            }
             g.ops.push(EnvOp::Trading { on: trading });
             for m in g.ms.iter_mut() {
                 if trading {
